@@ -31,7 +31,7 @@ func init() { Register("C17", runC17) }
 
 func runC17(c *Ctx) {
 	p, r := c.P, c.R
-	r.Explanation = "Decides the structural clauses of 'gated events do not linger': list-iteration safety of every loop over the ordered container/list (the successor is read before any call that may remove the element, for every list length at once), the shape of the expiry scan and of FlushAll (every element visited, gate opened for each, only exits: exhausted / error / not expired), Close reaching FlushAll, the expiry scan preceding the insertion in Process, and paired removal from both containers on every path of openGate. Wall-clock behaviour and memory bounds as numbers are not decided. C17.listops: only order-preserving list operations. C17.first also: every nil-error return of Process ran the scan (known finding F38: a non-Gateable event passes before it), and a group is stamped with an expiration that was found positive or defaulted. C17.scan no-shortcut and C17.reset: the scan is never skipped on a look at the oldest group; groups leave unsent only where no Broker is configured. C17.once: one call site of Sender.Send, not in a loop. C17.errors: Process, openGate, FlushAll and Close drop no error of the scan / gate / flush. C17.discard: unsent removal only where the Broker was found nil."
+	r.Explanation = "Decides the structural clauses of 'gated events do not linger': list-iteration safety of every loop over the ordered container/list (the successor is read before any call that may remove the element, for every list length at once), the shape of the expiry scan and of FlushAll (every element visited, gate opened for each, only exits: exhausted / error / not expired), Close reaching FlushAll, the expiry scan preceding the insertion in Process, and paired removal from both containers on every path of openGate. Wall-clock behaviour and memory bounds as numbers are not decided. C17.listops: only order-preserving list operations. C17.first also: every nil-error return of Process ran the scan (known finding F38: a non-Gateable event passes before it), and a group is stamped with an expiration that was found positive or defaulted. C17.scan no-shortcut and C17.reset: the scan is never skipped on a look at the oldest group; groups leave unsent only where no Broker is configured. C17.once: one call site of Sender.Send, not in a loop. C17.errors: Process, openGate, FlushAll and Close drop no error of the scan / gate / flush. C17.discard: unsent removal only where the Broker was found nil. C17.send: openGate's Send gets the caller's context, the composed type and payload."
 	r.NotDecided = []string{"wall-clock expiry behaviour", "numeric memory bounds"}
 	c.errControls()
 	n := 0
@@ -54,6 +54,7 @@ func runC17(c *Ctx) {
 	// "emitted through the Broker ... or dropped when no Broker is configured": a group leaves the gate
 	// unsent only where the filter's Broker was found nil at that moment (C11.discard under C17)
 	c.ruleGatedDiscard("C17.discard")
+	c.ruleGatedNoGate("C17.send")
 	// "after any successful Process call no expired group remains gated": Process succeeds only
 	// when the expiry scan did — a failure of the scan (or of the gate it opens) is returned
 	for _, f := range p.FuncsIn(PkgGated) {
